@@ -361,6 +361,9 @@ M("C08", "writer-raises-prepare-error", F + "xyz.py", r"(    if atom_columns is 
 
 M("C07", "molekel-pushback-then-continue", F + "molekel.py", r"(            if len\(words\) != 2:\n                lit\.back\(line\)\n                )break", "\\1continue", "C07-R4")
 
+M("C07", "decorator-returns-in-finally", "iodata/api.py", r"        finally:\n            for warning in warning_list:\n                warnings\.warn\(warning\.message, warning\.category, stacklevel=2\)\n        return result\n", "        finally:\n            for warning in warning_list:\n                warnings.warn(warning.message, warning.category, stacklevel=2)\n            return result\n", "C07-R1", also=[(r"        warning_list = \[\]\n", "        warning_list = []\n        result = None\n")])
+M("C07", "lineiterator-pops-oldest-pushback", "iodata/utils.py", r"self\.stack\.pop\(\) if self\.stack", "self.stack.pop(0) if self.stack", "C07-R6")
+
 # ----------------------------------------------------------------------------- additions (fourth round, batch 6)
 M("C07", "extxyz-title-parsed-after-putback", F + "extxyz.py", r"    atom_columns, title_data = _parse_title\(title_line, lit\)\n    lit\.back\(title_line\)\n    lit\.back\(atom_line\)\n", "    lit.back(title_line)\n    lit.back(atom_line)\n    atom_columns, title_data = _parse_title(title_line, lit)\n", "C07-R8")
 M("C07", "mol2-atom-loop-skips-blank-lines", F + "mol2.py", r"(    for i in range\(natoms\):\n        words = next\(lit\)\.split\(\)\n)", "\\1        if not words:\n            continue\n", "C07-R9")
